@@ -155,10 +155,15 @@ def families(ctx: Ctx) -> List[Family]:
         c = prog.classes.get(cq)
         if c is None or "inspect_call" not in c.methods:
             raise AnchorError(f"role call-inspector ({cq}.inspect_call) not found")
-        fam = Family(c.methods["inspect_call"])
+        # the method the visitors call may only hand the call to the object that does the work (`return _Inspector(ctx..).inspect(node)`)
+        from .common import unfacade
+        fam = Family(unfacade(ctx, c.methods["inspect_call"]))
         h = fam.holder
+        if h.cls is not None:
+            c = h.cls
         tables: Dict[str, Dict[Tuple[str, ...], Func]] = {}
-        for n in h.own_nodes():
+        # dispatch tables: a dictionary {constant API path: handler method} bound in the holder or in the body of its class
+        for n in list(h.own_nodes()) + list(c.node.body):
             if isinstance(n, (ast.Assign, ast.AnnAssign)) and isinstance(n.value, ast.Dict):
                 tgt = n.targets[0] if isinstance(n, ast.Assign) else n.target
                 entries: Dict[Tuple[str, ...], Func] = {}
@@ -166,13 +171,18 @@ def families(ctx: Ctx) -> List[Family]:
                     kp = _const_path(k) if k is not None else None
                     if kp is not None and isinstance(v, ast.Attribute) and v.attr in c.methods:
                         entries[kp] = c.methods[v.attr]
+                    elif kp is not None and isinstance(v, ast.Name) and v.id in c.methods and n in c.node.body:
+                        entries[kp] = c.methods[v.id]
                 if entries and isinstance(tgt, ast.Name):
                     tables[tgt.id] = entries
         for n in h.own_nodes():
             if isinstance(n, ast.Assign) and isinstance(n.value, ast.Call) and isinstance(n.value.func, ast.Attribute) and n.value.func.attr == "get" \
-                    and isinstance(n.value.func.value, ast.Name) and n.value.func.value.id in tables and isinstance(n.targets[0], ast.Name):
+                    and ((isinstance(n.value.func.value, ast.Name) and n.value.func.value.id in tables) or (
+                        isinstance(n.value.func.value, ast.Attribute) and isinstance(n.value.func.value.value, ast.Name)
+                        and n.value.func.value.value.id in ("self", "cls", c.name) and n.value.func.value.attr in tables)) and isinstance(n.targets[0], ast.Name):
                 fam.lookup_vars.add(n.targets[0].id)
-                for kp, m in tables[n.value.func.value.id].items():
+                tname = n.value.func.value.id if isinstance(n.value.func.value, ast.Name) else n.value.func.value.attr
+                for kp, m in tables[tname].items():
                     fam.handlers[m.qname] = (m, kp)
                     fam.table_keys.add(kp)
         for n in h.own_nodes():
@@ -641,10 +651,16 @@ def _overlap_input(ctx: Ctx, top: Func, detector: Func) -> None:
 
 def _pair_base(fl, name: ast.Name):
     """x defined by `.. = z.attr` (possibly inside a tuple assignment): (z, frozenset(defs of z), attr)"""
-    defs = fl.defs_of_use(name)
-    if len(defs) != 1 or defs[0].value is None:
-        return None
-    v = defs[0].value
+    v = None
+    for _ in range(5):
+        defs = fl.defs_of_use(name)
+        if len(defs) != 1 or defs[0].value is None:
+            return None
+        v = defs[0].value
+        if isinstance(v, ast.Name):
+            name = v  # a plain copy (the parameter binding of an expanded helper): the value is the copied one
+            continue
+        break
     if isinstance(v, ast.Attribute) and isinstance(v.value, ast.Name):
         return (v.value.id, frozenset(id(d) for d in fl.defs_of_use(v.value)), v.attr)
     return None
